@@ -9,7 +9,7 @@ RULE = ('C19 runs on spied, instrumented HsmWithQueues and ActiveObject charts: 
         'the record must be (previous rest state, signal, new rest state); at the end the record list must equal the expected list cut '
         'to the 500-record ring (long runs cross it). distinct_nontrivial = distinct (host, transitions, non-transitions) per run')
 CASES = {'quick': 2500, 'thorough': 150000}
-BUDGET = {'quick': 40, 'thorough': 900}
+BUDGET = {'quick': 40, 'thorough': 300}
 REQUIRE = {'trace_transitions': 5000, 'trace_non_transitions': 5000, 'trace_ring_crossed': 1}
 ASSUME = ['steps stay below the 250-tuple per-step ring']
 
